@@ -289,21 +289,33 @@ func TestC05(t *testing.T) {
 		c.ShutdownAsync()
 	}
 	// ---- member-count quorum
-	for _, mcq := range []int{2, 3} {
+	for _, mcqOrder := range []int{2, 3, -2, -3} {
+		// the member that is asked is the first member of the cluster while the later ones go away - or the last one that
+		// joined while the earlier ones (the coordinator first) go away
+		mcq, firstStays := mcqOrder, true
+		if mcq < 0 {
+			mcq, firstStays = -mcq, false
+		}
 		c, err := cluster.StartTogether(cluster.Options{Replicas: 1, MemberCountQuorum: mcq, Partitions: 7, Manual: true}, 3)
 		if err != nil {
 			t.Fatal(err)
 		}
-		cfg := fmt.Sprintf("MCQ=%d N=3", mcq)
+		cfg := fmt.Sprintf("MCQ=%d N=3 asked: the %s member", mcq, map[bool]string{true: "first", false: "last"}[firstStays])
 		sum.Configs = append(sum.Configs, cfg)
 		seq++
 		w.Emit(trace.Ev{"t": "reset", "seq": seq, "cfg": cfg})
 		S := c.Members[0]
+		if !firstStays {
+			S = c.Members[len(c.Members)-1]
+		}
 		if _, err := S.DB.NewEmbeddedClient().NewDMap("c05known"); err != nil {
 			t.Fatal(err)
 		}
 		probe := func() {
-			seen := int(S.V.RoutingTable.NumMembers())
+			// how many members there are (the failure detector has settled: the member lists exactly the live members), and
+			// how many the member counts for its quorum
+			seen := len(c.Live())
+			counted := int(S.V.RoutingTable.NumMembers())
 			rc := redis.NewClient(&redis.Options{Addr: S.Name, MaxRetries: -1, DialTimeout: time.Second})
 			defer rc.Close()
 			n := 0
@@ -326,7 +338,7 @@ func TestC05(t *testing.T) {
 				if seen == mcq || seen == mcq-1 {
 					sum.DistinctNontrivial++
 				}
-				w.Emit(trace.Ev{"t": "mcq", "MCQ": mcq, "seen": seen, "cmd": cmd, "ret": ret, "applied": applied, "detail": fmt.Sprint(err)})
+				w.Emit(trace.Ev{"t": "mcq", "MCQ": mcq, "seen": seen, "counted": counted, "cmd": cmd, "ret": ret, "applied": applied, "detail": fmt.Sprint(err)})
 			}
 			k := fmt.Sprintf("mk-%d-%d", mcq, seen)
 			try("dm.put", k+"a", "dm.put", "c05m", k+"a", "v")
@@ -360,22 +372,30 @@ func TestC05(t *testing.T) {
 					}
 				}
 				sum.Evaluations++
-				w.Emit(trace.Ev{"t": "mcq", "MCQ": mcq, "seen": seen, "cmd": "NewDMap", "ret": classify(err).Ret, "applied": applied, "detail": fmt.Sprint(err)})
+				w.Emit(trace.Ev{"t": "mcq", "MCQ": mcq, "seen": seen, "counted": counted, "cmd": "NewDMap", "ret": classify(err).Ret, "applied": applied, "detail": fmt.Sprint(err)})
 			}
 		}
 		probe()
 		for len(c.Live()) > 1 {
 			victim := c.Live()[len(c.Live())-1]
+			if !firstStays {
+				victim = c.Live()[0]
+			}
 			if err := c.Stop(victim, true); err != nil {
 				t.Fatal(err)
 			}
-			want := int32(len(c.Live()))
-			deadline := time.Now().Add(5 * time.Second)
-			for S.V.RoutingTable.NumMembers() != want && time.Now().Before(deadline) {
+			// settled: the member lists exactly the live members (its own count of them is for the specification to judge);
+			// a count that is still different gets a moment to follow
+			want := len(c.Live())
+			deadline := time.Now().Add(8 * time.Second)
+			for len(S.Table(7).Members) != want && time.Now().Before(deadline) {
 				time.Sleep(20 * time.Millisecond)
 			}
-			if S.V.RoutingTable.NumMembers() != want {
-				t.Fatalf("member count did not settle")
+			if len(S.Table(7).Members) != want {
+				t.Fatalf("the member list did not settle")
+			}
+			for until := time.Now().Add(2 * time.Second); int(S.V.RoutingTable.NumMembers()) != want && time.Now().Before(until); {
+				time.Sleep(20 * time.Millisecond)
 			}
 			probe()
 		}
